@@ -12,9 +12,14 @@ CHAINS = [("ES", "2017-01", "2024-12"), ("NK", "2017-01", "2024-12"), ("ZN", "20
           ("VX", "2018-01", "2021-12")]
 
 
-def resolution_case(name, start, end, month):
+def resolution_case(name, start, end, month, explicit=False):
     cls = getattr(C, name)
     ch = FutureChain(cls, start, end, month=month)
+    if explicit:
+        # the same chain built from an explicit list given in a non-chronological order (reversed halves interleaved)
+        cs = list(ch.contracts)
+        mixed = cs[len(cs) // 2:][::-1] + cs[:len(cs) // 2]
+        ch = FutureChain(contracts=mixed, month=month)
     ltds = [c.last_trading_date for c in ch.contracts]
     bad = []
     prev_idx = -1
@@ -109,6 +114,10 @@ def chains(tier, seed):
     for (name, s, e) in CHAINS:
         for month in (0, 1, 2):
             bad, n = resolution_case(name, s, e, month)
+            if not bad:
+                bad, _ = resolution_case(name, s, e, month, explicit=True)
+                if bad:
+                    bad[0]["chain_built_from"] = "explicit unordered list of contracts"
             acc.case(("resolve", name, month), sample={"class": name, "month_offset": month, "instants": n} if (name, month) == ("ES", 1) else None)
             acc.validated += n
             if bad:
@@ -131,6 +140,8 @@ def chains(tier, seed):
 def rerun(inp):
     if inp["case"] == "resolve":
         bad, _ = resolution_case(inp["class"], inp["start"], inp["end"], inp["month"])
+        if not bad:
+            bad, _ = resolution_case(inp["class"], inp["start"], inp["end"], inp["month"], explicit=True)
         return {"reproduced": bool(bad), "failing": bad[:1]}
     p = roll_case(inp["class"], inp["start"], inp["end"], inp["sign"], inp["margin"], inp["month"], inp["small"])
     return {"reproduced": bool(p), "failing": p}
